@@ -34,7 +34,8 @@ PARALLEL = True
 EXHAUSTIVE = False
 CORRESPONDENCE = ("Drivers/C09.lean (Idp.create; Sp.process ∘ Idp.toSp) vs Server.create_authn_response read back by an "
                   "independent XML reader, and Saml2Client.parse_authn_request_response on that very message")
-RULE = ("random IdP configurations (sign_response/sign_assertion/algorithms/policy per requester, registration authority, "
+RULE = ("complete product of create_authn_response's shaping arguments (22 farg trees x 7 authn dictionaries x "
+        "session_not_on_or_after x 3 status x name_id given or not = 1848 cells) + random IdP configurations (sign_response/sign_assertion/algorithms/policy per requester, registration authority, "
         "default and \"\" entries/domain) x arguments (requester, binding, NameIDPolicy, stored identifiers, explicit NameID, "
         "authn dictionary, sign_* and algorithm arguments, session_not_on_or_after, release_policy, clock) x receiving SP "
         "(signature options, allow_unsolicited, skew, clock offset at the window boundaries, outstanding set, trusted or "
@@ -53,7 +54,10 @@ TRUSTED = [
 ]
 ASSUMPTIONS = [
     "encrypt_assertion unset (the encryption branch of Entity._response is C16); no pefim",
-    "the optional arguments issuer=, farg=, status=, authn_statement= are not passed (they replace the fields the property talks about)",
+    "the optional arguments issuer= and authn_statement= are not passed (they replace the fields the property talks about); "
+    "farg= trees and status= ARE generated: complete product of the shaping arguments plus random partial trees; the model gets "
+    "the abstract tree (what is preset on the paths the code reads), the code one concrete rendering of it; a preset Method is "
+    "never the empty string; no key_info is supplied for holder-of-key; authn keys authn_instant/subject_locality/decl_ref are not used",
     "consumer URL, request ID and requester entityID are non-empty; identifiers stored in the IdentDB carry a Format",
     "algorithm URIs outside the allow-lists are only generated together with a demanded Response signature (assertion-only signing "
     "does not test the allow-list and then depends on what the xmlsec backend supports); RIPEMD160 is not generated (stand-in)",
@@ -88,6 +92,16 @@ BAD_DIGEST_ALGS = ["http://www.w3.org/2001/04/xmldsig-more#md5", "sha256"]
 CLASS_REFS = ["urn:oasis:names:tc:SAML:2.0:ac:classes:Password",
               "urn:oasis:names:tc:SAML:2.0:ac:classes:PasswordProtectedTransport",
               "urn:oasis:names:tc:SAML:2.0:ac:classes:X509", "urn:example:ac:classes:müstergültig"]
+
+SCM_BEARER = "urn:oasis:names:tc:SAML:2.0:cm:bearer"
+SCM_HOK = "urn:oasis:names:tc:SAML:2.0:cm:holder-of-key"
+SCM_SV = "urn:oasis:names:tc:SAML:2.0:cm:sender-vouches"
+SCM_UNKNOWN = "urn:example:cm:unknown"
+STATUS_SUCCESS = "urn:oasis:names:tc:SAML:2.0:status:Success"
+STATUS_RESPONDER = "urn:oasis:names:tc:SAML:2.0:status:Responder"
+STATUS_REQUESTER = "urn:oasis:names:tc:SAML:2.0:status:Requester"
+STATUS_AUTHN_FAILED = "urn:oasis:names:tc:SAML:2.0:status:AuthnFailed"
+DECL_TEXT = "verif-authn-context-declaration"
 
 RA_ID = "https://ra.verif.example/federation"
 AFFILIATION = "urn:example:affiliation:library"
@@ -323,6 +337,103 @@ def gen_identity(rng):
     return ava
 
 
+# ---- caller-supplied assertion argument trees (farg=)
+#
+# A case carries the ABSTRACT tree (what is preset on the paths update_farg / do_subject_confirmation read; that is
+# what the Lean model gets) together with one CONCRETE rendering of it (what the real code gets): nesting depth,
+# None leaves for unset fields, empty dictionaries and foreign keys are noise the abstraction must not depend on.
+
+FARG_FIELDS = ("method", "recipient", "irt", "address", "nb", "nooa")
+SCD_KEY = {"recipient": "recipient", "irt": "in_response_to", "address": "address", "nb": "not_before",
+           "nooa": "not_on_or_after"}
+MALFORMED_TREES = [
+    {"assertion": None},
+    {"assertion": {"subject": "not-a-dictionary"}},
+    {"assertion": {"subject": {"subject_confirmation": None}}},
+    {"assertion": {"subject": {"subject_confirmation": [{"method": SCM_BEARER}]}}},
+    {"assertion": {"subject": {"subject_confirmation": {"method": SCM_BEARER, "subject_confirmation_data": None}}}},
+]
+EMPTY_SHAPES = [
+    {"assertion": {}},
+    {"assertion": {"subject": {}}},
+    {"assertion": {"subject": {"subject_confirmation": {}}}},
+    {"assertion": {"subject": {"subject_confirmation": {"subject_confirmation_data": {}}}}},
+    {"unrelated": {"key": "1"}},
+    {"assertion": {"subject": {"subject_confirmation": {"method": None}}}},
+    {"assertion": {"subject": {"subject_confirmation": {"subject_confirmation_data": {"recipient": None,
+                                                                                        "in_response_to": None}}}}},
+]
+
+
+def farg_abstract(**preset):
+    f = {"empty": False, "malformed": False}
+    for k in FARG_FIELDS:
+        f[k] = preset.get(k)
+    return f
+
+
+def render_farg(f, noise=0, rng=None):
+    """abstract tree -> a concrete dictionary for create_authn_response(farg=…)"""
+    if f.get("empty"):
+        return {}
+    if f.get("malformed"):
+        return copy.deepcopy(MALFORMED_TREES[noise % len(MALFORMED_TREES)])
+    if all(f.get(k) is None for k in FARG_FIELDS):
+        return copy.deepcopy(EMPTY_SHAPES[noise % len(EMPTY_SHAPES)])
+    sc, scd = {}, {}
+    if f["method"] is not None:
+        sc["method"] = f["method"]
+    elif noise % 2:
+        sc["method"] = None
+    for k, key in SCD_KEY.items():
+        if f[k] is not None:
+            scd[key] = S.fmt_time(f[k]) if k in ("nb", "nooa") else f[k]
+        elif (noise >> 1) % 3 == 1:
+            scd[key] = None
+    if scd or (noise >> 3) % 2:
+        sc["subject_confirmation_data"] = scd
+    tree = {"assertion": {"subject": {"subject_confirmation": sc}}}
+    if (noise >> 4) % 2:
+        tree["unrelated"] = {"key": "1"}
+    if (noise >> 5) % 2:
+        tree["assertion"]["advice_like"] = {"x": None}
+    return tree
+
+
+def with_tree(f, noise=0):
+    f = dict(f)
+    f["tree"] = render_farg(f, noise)
+    return f
+
+
+def gen_farg(rng, a):
+    """a random partial tree"""
+    c = rng.random()
+    if c < 0.08:
+        return with_tree({"empty": True})
+    if c < 0.16:
+        return with_tree({"empty": False, "malformed": True}, rng.randrange(64))
+    other_acs = SPS[a["requester"]]["acs"]["redirect" if a["binding"] == "post" else "post"]
+    pool = {
+        "method": [SCM_BEARER, SCM_BEARER, SCM_SV, SCM_UNKNOWN, SCM_HOK],
+        "recipient": [a["destination"], other_acs, "https://elsewhere.example/acs", ""],
+        "irt": [a["in_response_to"], "id-some-other-request"],
+        "address": ["192.0.2.7", "198.51.100.23"],
+        "nb": [a["now"] - 5, a["now"], a["now"] + 100],
+        "nooa": [a["now"] + 7, a["now"] - 100, a["now"] + 10**6],
+    }
+    probs = {"method": 0.35, "recipient": 0.15, "irt": 0.12, "address": 0.4, "nb": 0.12, "nooa": 0.25}
+    preset = {k: rng.choice(v) for k, v in pool.items() if rng.random() < probs[k]}
+    return with_tree(farg_abstract(**preset), rng.randrange(64))
+
+
+def gen_status(rng):
+    c = rng.random()
+    if c < 0.4:
+        return {"top": STATUS_SUCCESS, "second": None}
+    return {"top": rng.choice([STATUS_RESPONDER, STATUS_REQUESTER]), "second": rng.choice([None, STATUS_AUTHN_FAILED])}
+
+
 def resolved(arg, cfg):
     return arg if arg is not None else cfg if cfg is not None else False
 
@@ -353,6 +464,12 @@ def gen_args(rng, cfg, k):
         authn = {"authn_auth": S.IDP_ID}
     elif c < 0.29:
         authn = {"class_ref": "", "authn_auth": ""}
+    elif c < 0.35:
+        authn = {"decl": True}
+        if rng.random() < 0.6:
+            authn["authn_auth"] = S.IDP_ID
+        if rng.random() < 0.2:
+            authn["class_ref"] = rng.choice(CLASS_REFS)
     else:
         authn = {"class_ref": rng.choice(CLASS_REFS), "authn_auth": rng.choice([S.IDP_ID, "https://mfa.verif.example/authority"])}
     a = {"in_response_to": "id-req-%d" % k, "destination": SPS[requester]["acs"][binding], "sp_entity_id": rid,
@@ -363,6 +480,8 @@ def gen_args(rng, cfg, k):
          "session_nooa": None, "stored": stored,
          "now": S.NOW0 + rng.choice([0, 0, 1, 86399, -86400 * 263 - 51200 + 1, 86400 * 101 + 35199, rng.randrange(-10**7, 10**7)]),
          "attrs": gen_identity(rng)}
+    a["farg"] = gen_farg(rng, a) if rng.random() < 0.25 else None
+    a["status"] = gen_status(rng) if rng.random() < 0.06 else None
     if rng.random() < 0.1:
         a["release_policy"] = {"policy": gen_policy(rng)}
     if rng.random() < 0.05:
@@ -443,12 +562,88 @@ def gen_cases(rng, tier):
                 c = rng.random()
                 offs = [-100, 0, 1, 60, life, life + 3600, 10**6] if c < 0.8 else [-a["now"], 1 - a["now"], -a["now"] - 5]
                 a["session_nooa"] = a["now"] + rng.choice(offs)
-            if a["authn"] and a["authn"].get("authn_auth") and not a["authn"].get("class_ref"):
+            if bare_statement(a["authn"]):
                 # AuthenticatingAuthority without a class reference: the code emits an AuthnStatement without
                 # AuthnContext, which is not schema-valid; what the SP does with it depends on whether a signature
                 # check (which validates the schema) happens.  Not an "authn context" of the quantifier: IdP stage only.
                 side = None
             yield {"idp": cfg, "args": a, "sp": side}
+    yield from gen_product(rng)
+
+
+def bare_statement(authn):
+    return bool(authn) and bool(authn.get("authn_auth")) and not authn.get("class_ref") and not authn.get("decl")
+
+
+PRODUCT_CFG = {"entity_id": S.IDP_ID, "sign_response": None, "sign_assertion": None, "signing_algorithm": None,
+               "digest_algorithm": None, "policy": [["default", {"lifetime": {"minutes": 15}, "other": True}]],
+               "domain": None, "ras": RAS}
+
+
+def product_fargs(a):
+    """the shaping-tree variants of the complete product: (abstract, rendering noise)"""
+    other_acs = SPS[a["requester"]]["acs"]["redirect"]
+    now = a["now"]
+    return [
+        (None, 0),                                                       # no farg= at all
+        ({"empty": True}, 0),                                            # {}
+        (farg_abstract(), 0), (farg_abstract(), 2), (farg_abstract(), 5), (farg_abstract(), 6),   # nothing preset, 4 shapes
+        (farg_abstract(method=SCM_BEARER), 0),                           # method only
+        (farg_abstract(address="192.0.2.7"), 0),                         # address only
+        (farg_abstract(method=SCM_BEARER, address="192.0.2.7"), 3),      # method + address, None leaves around
+        (farg_abstract(irt="id-some-other-request"), 0),                 # InResponseTo preset
+        (farg_abstract(irt=a["in_response_to"]), 16),                    # … to the right value
+        (farg_abstract(recipient=other_acs), 0),                         # Recipient preset
+        (farg_abstract(recipient=""), 0),
+        (farg_abstract(nooa=now + 7), 0),                                # NotOnOrAfter preset (overwritten)
+        (farg_abstract(nb=now - 5), 0), (farg_abstract(nb=now + 100), 8),  # NotBefore preset
+        (farg_abstract(method=SCM_SV), 0), (farg_abstract(method=SCM_UNKNOWN), 0), (farg_abstract(method=SCM_HOK), 0),
+        ({"empty": False, "malformed": True}, 0), ({"empty": False, "malformed": True}, 3),
+        (farg_abstract(method=SCM_BEARER, recipient=a["destination"], irt=a["in_response_to"], address="198.51.100.23",
+                       nb=now - 1, nooa=now + 1), 32),                   # everything preset
+    ]
+
+
+PRODUCT_AUTHN = [None, {"class_ref": CLASS_REFS[0]}, {"class_ref": CLASS_REFS[1], "authn_auth": S.IDP_ID},
+                 {"authn_auth": S.IDP_ID}, {"decl": True}, {"decl": True, "authn_auth": S.IDP_ID},
+                 {"decl": True, "class_ref": CLASS_REFS[2]}]
+PRODUCT_STATUS = [None, {"top": STATUS_SUCCESS, "second": None}, {"top": STATUS_RESPONDER, "second": STATUS_AUTHN_FAILED}]
+
+
+def gen_product(rng):
+    """create_authn_response's optional shaping arguments, enumerated completely (both tiers):
+    farg tree x authn dictionary x session_not_on_or_after x status x (name_id given | userid + policy),
+    one fixed configuration, a receiving SP that asks for no signature; signing alternates over the cells so that
+    the SP's schema-validating signature check sees every shape."""
+    i = 0
+    base = {"destination": SPS["sp"]["acs"]["post"], "sp_entity_id": S.SP_ID, "requester": "sp", "binding": "post",
+            "nip": None, "userid": "user-1", "sign_alg": None, "digest_alg": None, "stored": [], "now": S.NOW0,
+            "attrs": [["givenName", ["Anna"]], ["sn", ["Öberg", "李"]]]}
+    for authn in PRODUCT_AUTHN:
+        for sess in (None, S.NOW0 + 60):
+            for status in PRODUCT_STATUS:
+                for given in (False, True):
+                    probe = dict(base, in_response_to="id-prod")
+                    for fabs, noise in product_fargs(probe):
+                        i += 1
+                        a = dict(base, in_response_to="id-prod-%d" % i, authn=copy.deepcopy(authn), session_nooa=sess,
+                                 status=copy.deepcopy(status),
+                                 name_id={"format": NF_PERSISTENT, "spnq": S.SP_ID, "nq": S.IDP_ID, "text": "given-subject"}
+                                 if given else None,
+                                 sign_response=(i % 3 == 0), sign_assertion=(i % 2 == 0))
+                        if fabs is None:
+                            a["farg"] = None
+                        else:
+                            f = dict(fabs)
+                            for k in ("irt",):  # the per-cell request id
+                                if f.get(k) == "id-prod":
+                                    f[k] = a["in_response_to"]
+                            a["farg"] = with_tree(f, noise)
+                        side = {"entity": "sp", "binding": "post", "want_resp": False, "want_assert": None, "want_either": None,
+                                "allow_unsolicited": None, "skew": None, "trusts": True, "now": S.NOW0 + (i % 5),
+                                "outstanding": [[a["in_response_to"], "/came/from/" + a["in_response_to"]]],
+                                "entity_id": S.SP_ID, "return_addrs": [SPS["sp"]["acs"]["post"]]}
+                        yield {"idp": PRODUCT_CFG, "args": a, "sp": None if bare_statement(authn) else side}
 
 
 # ------------------------------------------------------------------ independent XML reader
@@ -480,7 +675,8 @@ def read_assertion(a):
                       "recipient": d.get("Recipient") if d is not None else None,
                       "irt": d.get("InResponseTo") if d is not None else None,
                       "nb": _t(d.get("NotBefore")) if d is not None else None,
-                      "nooa": _t(d.get("NotOnOrAfter")) if d is not None else None})
+                      "nooa": _t(d.get("NotOnOrAfter")) if d is not None else None,
+                      "address": d.get("Address") if d is not None else None})
     cond = a.find("{%s}Conditions" % SAML)
     auds = []
     if cond is not None:
@@ -488,8 +684,10 @@ def read_assertion(a):
             auds.append([x.text or "" for x in ar.findall("{%s}Audience" % SAML)])
     authn = []
     for st in a.findall("{%s}AuthnStatement" % SAML):
+        aa = st.find("{%s}AuthnContext/{%s}AuthenticatingAuthority" % (SAML, SAML))
         authn.append({"class_ref": _text(st.find("{%s}AuthnContext/{%s}AuthnContextClassRef" % (SAML, SAML))),
-                      "authn_auth": _text(st.find("{%s}AuthnContext/{%s}AuthenticatingAuthority" % (SAML, SAML))),
+                      "authn_auth": None if aa is None else (aa.text or ""),   # an empty element is "" (not absent)
+                      "decl": st.find("{%s}AuthnContext/{%s}AuthnContextDecl" % (SAML, SAML)) is not None,
                       "session_nooa": _t(st.get("SessionNotOnOrAfter")),
                       "session_index": st.get("SessionIndex")})
     attrs = []
@@ -512,6 +710,9 @@ def read_response(xml):
         raise ValueError("not a Response: %s" % root.tag)
     return {"r": "ok", "issuer": _text(root.find("{%s}Issuer" % SAML)), "destination": root.get("Destination"),
             "in_response_to": root.get("InResponseTo"), "issue_instant": _t(root.get("IssueInstant")), "sig": _sig(root),
+            "status_top": (lambda c: c.get("Value") if c is not None else "")(root.find("{%s}Status/{%s}StatusCode" % (SAMLP, SAMLP))),
+            "status_second": (lambda c: c.get("Value") if c is not None else None)(
+                root.find("{%s}Status/{%s}StatusCode/{%s}StatusCode" % (SAMLP, SAMLP, SAMLP))),
             "assertions": [read_assertion(a) for a in root.findall("{%s}Assertion" % SAML)]}
 
 
@@ -590,11 +791,24 @@ def run_impl(case):
         kw["session_not_on_or_after"] = S.fmt_time(a["session_nooa"])
     if "release_policy" in a:
         kw["release_policy"] = Policy(policy_dict(a["release_policy"]["policy"]), mds=idp.metadata)
+    if a.get("farg") is not None:
+        kw["farg"] = copy.deepcopy(a["farg"]["tree"])  # update_farg completes the caller's tree in place
+    if a.get("status") is not None:
+        st = a["status"]
+        inner = samlp.StatusCode(value=st["second"]) if st.get("second") else None
+        kw["status"] = samlp.Status(status_code=samlp.StatusCode(value=st["top"], status_code=inner))
+    authn = copy.deepcopy(a["authn"])
+    if authn and authn.get("decl"):
+        from saml2 import saml
+
+        authn["decl"] = saml.AuthnContextDecl(text=DECL_TEXT)
+    elif authn and "decl" in authn:
+        del authn["decl"]
     identity = {n: list(vs) for n, vs in a["attrs"]}
     with S.clock(a["now"]):
         try:
             resp = idp.create_authn_response(identity, rargs["in_response_to"], rargs["destination"], rargs["sp_entity_id"],
-                                             name_id_policy=pnip, userid=a["userid"], authn=copy.deepcopy(a["authn"]), **kw)
+                                             name_id_policy=pnip, userid=a["userid"], authn=authn, **kw)
         except Exception as e:  # whatever leaves create_authn_response: no Response was created
             return {"idp": {"r": "refused", "why": "%s: %s" % (type(e).__name__, str(e)[:60])}, "sp": None}
     xml = resp if isinstance(resp, str) else str(resp)
@@ -718,7 +932,7 @@ def shrink(case):
             c = copy.deepcopy(case)
             del c["args"][k]
             yield c
-    for k in ("sign_alg", "digest_alg", "session_nooa", "name_id", "sign_response", "sign_assertion"):
+    for k in ("farg", "status", "sign_alg", "digest_alg", "session_nooa", "name_id", "sign_response", "sign_assertion"):
         if a.get(k) is not None:
             c = copy.deepcopy(case)
             c["args"][k] = None
